@@ -164,7 +164,16 @@ fn main() {
         // run each request on a big-stack thread so that deep recursion is survivable
         let resp = std::thread::Builder::new()
             .stack_size(64 << 20)
-            .spawn(move || handle(&req))
+            .spawn(move || {
+                // `prelude`: requests served first on the same thread, results dropped - state that survives a run
+                // (thread-locals, statics) then shows in the answer to the request proper
+                if let Some(pre) = req.get("prelude").and_then(|p| p.as_array()) {
+                    for p in pre {
+                        let _ = handle(p);
+                    }
+                }
+                handle(&req)
+            })
             .unwrap()
             .join()
             .unwrap_or_else(|_| serde_json::json!({"panic": "thread died"}));
